@@ -162,7 +162,7 @@ func cmdCheck(args []string) int {
 	}
 	for _, ax := range g.db.Axioms {
 		if ax.Lemma && hasProp(ax.Props, *prop) && (*only == "" || onlyMatch(*only, ax.Name)) {
-			obls = append(obls, g.VerifyLemma(ax))
+			obls = append(obls, g.VerifyLemmaAll(ax)...)
 		}
 	}
 	// restrict to obligations serving this property
